@@ -1,5 +1,7 @@
 """C12 - lexing is exact and independent of layout."""
+import os, random, sys
 from component import run_corr
+from common import REPO
 PROPS_VO = ['Props/C12_lexer.vo']
 GEN_ITEMS = ['coq/Gen/GenLexer.v']
 GEN_FROM = {'regen_lexer': ['coq/Gen/GenLexer.v']}
@@ -10,3 +12,55 @@ ASSUMPTIONS = ['the layout theorem uses a sufficient (not minimal) separability 
 
 def run(ctx):
     run_corr(ctx, 'corr_lexer', 'hidc.lexer.lex tokens/spans/errors vs Lexer model; re-layout invariance on hidc')
+    file_path_check(ctx)
+
+
+def file_path_check(ctx):
+    """The command-line tool reads the source through SourceCode.from_file; the model and the correspondence above use
+    from_string.  Both must produce the same lines (hence the same tokens and spans) for every text, in particular for texts
+    containing characters that some Python line-splitting functions treat as line breaks (VT, FF, FS..US, NEL, LS, PS) inside
+    comments and literals.  CR is excluded: reading a file translates CR and CRLF to LF by design (universal newlines)."""
+    if REPO not in sys.path:
+        sys.path.insert(0, REPO)
+    from hidc.lexer import SourceCode, lex
+    from hidc.errors import CompilerError
+    rng = random.Random(ctx.seed)
+    special = ['\x0b', '\x0c', '\x1c', '\x1d', '\x1e', '\x1f', '\x85', '\u2028', '\u2029', '\xa0', '\t', '\u00e9', '\u4e16', '\U0001F30E', '\ufeff', '\x00', '\x7f']
+    texts = []
+    for ch in special:
+        texts += ['int x = 1; // a comment%sx = 2; // more\nwrite(x);\n' % ch, 'write("a%sb");\n' % ch, "write('%s');\n" % ch, 'int a%s= 3;\n' % ch,
+                  '// only a comment%s\n\nint y;' % ch, 'write("x") %s ;' % ch, '%sint z;\n' % ch, 'int q = 7;%s' % ch]
+    for _ in range(150):
+        n = rng.randrange(1, 40)
+        texts.append(''.join(rng.choice(special + list('ab1 "\'/\n\n;=(){}\\')) for _ in range(n)))
+    work = os.path.join(ctx.work, 'c12_files')
+    os.makedirs(work, exist_ok=True)
+
+    def toks(src):
+        try:
+            return [(repr(t.token), str(t.span.start), str(t.span.end)) for t in lex(src)]
+        except CompilerError as e:
+            return ['ERR', type(e).__name__, str(e), [str(c.start) for c in e.context]]
+    n = 0
+    for k, text in enumerate(texts):
+        fn = os.path.join(work, 't%d.hid' % k)
+        with open(fn, 'w', encoding='utf-8', newline='') as f:
+            f.write(text)
+        try:
+            a = SourceCode.from_file(fn)
+            la = list(a.lines)
+        except Exception as e:
+            ctx.violate('reading a UTF-8 source file failed', cls='from_file', text=text, error='%s: %s' % (type(e).__name__, e))
+            continue
+        b = SourceCode.from_string(text)
+        n += 1
+        if la != list(b.lines) and la + [''] != list(b.lines) and la != list(b.lines) + ['']:
+            ctx.violate('a source FILE is split into different lines than the same text given as a string: the rest of a comment became code, or a literal was cut',
+                        cls='from_file_lines', text=text, file_lines=la[:6], string_lines=list(b.lines)[:6])
+            continue
+        ta, tb = toks(a), toks(b)
+        if ta != tb:
+            ctx.violate('lexing a source file gives different tokens/spans than lexing the same text', cls='from_file_tokens', text=text, file=ta[:8], string=tb[:8])
+    ctx.cov['evaluations'] = ctx.cov.get('evaluations', 0) + n
+    ctx.cov['rule'] = (ctx.cov.get('rule', '') + ' | file path: %d texts with VT/FF/FS-US/NEL/LS/PS/NBSP/BOM/NUL and non-ASCII characters in comments, literals and between tokens, '
+                       'written as UTF-8 files: SourceCode.from_file must give the same lines, tokens and spans as from_string (CR excluded: universal newlines)' % n)
